@@ -48,6 +48,7 @@ Definition offered_spec (src : candsrc) (v : bytes) (items : list citem) : Prop 
     /\ NoDup (map to_insert items)
   | GFiles _ None => items = []
   | GFixed its => forall x, In x (map to_show items) <-> In x (expected_fixed its v)
+  | GVars _ => True
   | GNotModelled => True
   end.
 
@@ -87,13 +88,14 @@ Qed.
 Lemma offered_ok_sound src ty items : offered_ok src ty items = true ->
   offered_spec src (ty_value ty) items.
 Proof.
-  unfold offered_ok, offered_spec. destruct src as [dir [es|]|its|]; intros H.
+  unfold offered_ok, offered_spec. destruct src as [dir [es|]|its|names|]; intros H.
   - apply andb_true_iff in H as [H H3]. apply andb_true_iff in H as [H1 H2]. split.
     + intros x. split; [apply subset_bytes_spec; exact H1|apply subset_bytes_spec; exact H2].
     + apply nodup_bytes_spec. exact H3.
   - destruct items; [reflexivity|discriminate].
   - apply andb_true_iff in H as [H1 H2].
     intros x. split; [apply subset_bytes_spec; exact H1|apply subset_bytes_spec; exact H2].
+  - exact I.
   - exact I.
 Qed.
 
